@@ -350,6 +350,31 @@ def sample(ctx, budget=1.0, hint=None, broken=None):
                                  'query differs from a freshly built Path of the same segments',
                                  {'history': hist[-8:], 'scipy_quad': bool(P._quad_available)}, repr(a), repr(b))
                             break
+                    # equality with an equal path made of SEPARATE, newly constructed segment objects that has its own measuring history
+                    # (never measured / measured at the default accuracy / measured loosely / both): == must look at the segments only
+                    def _clone(sg):
+                        if isinstance(sg, P.Arc):
+                            return P.Arc(sg.start, sg.radius, sg.rotation, sg.large_arc, sg.sweep, sg.end, autoscale_radius=False)
+                        return type(sg)(*sg.bpoints())
+                    try:
+                        dp = P.Path(*[_clone(sg) for sg in path])
+                    except Exception:
+                        dp = None
+                    if dp is not None and list(dp) == list(path):
+                        how_ = r.choice(['unmeasured', 'default', 'loose', 'loose-then-default', 'default-then-loose'])
+                        mine_ = r.choice(['as is', 'default', 'loose', 'loose-then-default', 'default-then-loose'])
+                        for pth_, hw_ in ((dp, how_), (path, mine_)):
+                            for step_ in hw_.split('-then-'):
+                                if step_ == 'default':
+                                    pth_.length()
+                                elif step_ == 'loose':
+                                    pth_.length(error=1e-3, min_depth=1)
+                        if not (path == dp) or (path != dp) or not (dp == path):
+                            fail('Path.__eq__ depends on measuring history', 'two paths with equal segments compare unequal after they were measured differently',
+                                 {'history': hist[-8:] + ['this path measured: ' + mine_, 'equal path of new segment objects measured: ' + how_],
+                                  'scipy_quad': bool(P._quad_available), 'path': repr(dp)}, 'unequal', 'equal')
+                        elif hash(path) != hash(dp) and getattr(path, '_closed', None) == getattr(dp, '_closed', None):
+                            fail('Path.__hash__ depends on measuring history', 'equal paths with different hashes', {'history': hist[-8:]}, 'hash differs', 'hash equal')
                     # equality with a fresh copy, and with itself after queries
                     fp = P.Path(*list(path))
                     if r.random() < 0.5:
@@ -414,7 +439,7 @@ def sample(ctx, budget=1.0, hint=None, broken=None):
     return {'evaluations': n_eval, 'distinct_nontrivial': len(nontriv), 'failures': fails, 'samples': samples,
             'rule': 'random mutation/query histories (depth <= 12) over real Line/Quadratic/Cubic/Arc segments with every query compared against a '
                     'freshly constructed Path after every operation; segment-level histories (length with other error/min_depth first, reversed(), '
-                    'control point reassignment); scipy on/off in the thorough tier. distinct = distinct (operation kind, scipy?)'}
+                    'control point reassignment); equality and hash against an equal path of newly constructed segment objects with its own measuring history (unmeasured / default / loose / both orders); scipy on/off in the thorough tier. distinct = distinct (operation kind, scipy?)'}
 
 
 def replay(spt, f):
